@@ -2,14 +2,17 @@
 // (value / error / stopped) is symbolic, connected to a recording receiver, and compared with the completion
 // the composition denotes (differential oracle).  Sequential scenarios complete inline in start().
 #include "env_pre.hpp"
+#include <pika/execution/algorithms/drop_operation_state.hpp>
 #include <pika/execution/algorithms/drop_value.hpp>
 #include <pika/execution/algorithms/ensure_started.hpp>
 #include <pika/execution/algorithms/just.hpp>
 #include <pika/execution/algorithms/let_error.hpp>
 #include <pika/execution/algorithms/let_value.hpp>
 #include <pika/execution/algorithms/split.hpp>
+#include <pika/execution/algorithms/split_tuple.hpp>
 #include <pika/execution/algorithms/start_detached.hpp>
 #include <pika/execution/algorithms/then.hpp>
+#include <pika/execution/algorithms/unpack.hpp>
 #include <pika/execution/algorithms/when_all.hpp>
 #include </repo/libs/pika/functional/src/basic_function.cpp>
 #include </repo/libs/pika/functional/src/empty_function.cpp>
@@ -272,5 +275,96 @@ extern "C" void drop_main()
     ex::start(o);
     verif_assert(rec.signals == 1 && rec.chan == l.chan, "drop_value: one signal on the same channel");
     if (l.chan == ch_error) verif_assert(rec.err == l.value, "drop_value: error forwarded");
+    verif_cover(0);
+}
+
+// ---- drop_operation_state: results parked, predecessor operation state released, then forwarded ---------------------
+extern "C" void dos_main()
+{
+    leaf l = mk(0);
+    record rec;
+    auto s = ex::drop_operation_state(l);
+    auto o = ex::connect(std::move(s), recv<>{&rec});
+    ex::start(o);
+    verif_assert(rec.signals == 1, "exactly one completion signal");
+    verif_assert(leaf_started[0] == 1, "the predecessor is started exactly once");
+    verif_assert(rec.chan == l.chan, "drop_operation_state: channel preserved");
+    if (l.chan == ch_value) verif_assert(rec.value == l.value, "drop_operation_state: value forwarded unchanged");
+    if (l.chan == ch_error) verif_assert(rec.err == l.value, "drop_operation_state: error forwarded unchanged");
+    verif_cover(0);
+}
+
+// ---- unpack: a tuple-valued predecessor is delivered element-wise, in order ----------------------------------------
+struct tleaf
+{
+    PIKA_STDEXEC_SENDER_CONCEPT
+    int chan, v, w;
+    template <template <typename...> class Tuple, template <typename...> class Variant>
+    using value_types = Variant<Tuple<std::tuple<int, int>>>;
+    template <template <typename...> class Variant>
+    using error_types = Variant<std::exception_ptr>;
+    static constexpr bool sends_done = true;
+    using completion_signatures =
+        ex::completion_signatures<ex::set_value_t(std::tuple<int, int>), ex::set_error_t(std::exception_ptr), ex::set_stopped_t()>;
+    template <typename R>
+    struct op
+    {
+        std::decay_t<R> r;
+        int chan, v, w;
+        void start() & noexcept
+        {
+            ++leaf_started[0];
+            if (chan == ch_value) ex::set_value(std::move(r), std::tuple<int, int>(v, w));
+            else if (chan == ch_error)
+                ex::set_error(std::move(r), std::make_exception_ptr(test_error{v}));
+            else
+                ex::set_stopped(std::move(r));
+        }
+    };
+    template <typename R>
+    op<R> connect(R&& r) const
+    {
+        return op<R>{std::forward<R>(r), chan, v, w};
+    }
+};
+extern "C" void unp_main()
+{
+    tleaf l{(int) verif_nondet_range(0, 2), (int) verif_nondet_range(1, 5), (int) verif_nondet_range(6, 9)};
+    record rec;
+    auto s = ex::unpack(l);
+    auto o = ex::connect(std::move(s), recv<>{&rec});
+    ex::start(o);
+    verif_assert(rec.signals == 1, "exactly one completion signal");
+    verif_assert(leaf_started[0] == 1, "the predecessor is started exactly once");
+    verif_assert(rec.chan == l.chan, "unpack: channel preserved");
+    if (l.chan == ch_value) verif_assert(rec.value == l.v && rec.value2 == l.w, "unpack: tuple elements delivered unchanged and in order");
+    if (l.chan == ch_error) verif_assert(rec.err == l.v, "unpack: error forwarded unchanged");
+    verif_cover(0);
+}
+
+// ---- split_tuple: one sender per tuple element, every one completes once on the predecessor's channel -------------
+extern "C" void spt_main()
+{
+    tleaf l{(int) verif_nondet_range(0, 2), (int) verif_nondet_range(1, 5), (int) verif_nondet_range(6, 9)};
+    record r1, r2;
+    auto [s1, s2] = ex::split_tuple(l);
+    bool second_first = verif_nondet_range(0, 1);
+    auto o1 = ex::connect(std::move(s1), recv<>{&r1});
+    auto o2 = ex::connect(std::move(s2), recv<>{&r2});
+    if (second_first)
+    {
+        ex::start(o2);
+        ex::start(o1);
+    }
+    else
+    {
+        ex::start(o1);
+        ex::start(o2);
+    }
+    verif_assert(r1.signals == 1 && r2.signals == 1, "split_tuple: every element sender gets exactly one completion signal");
+    verif_assert(leaf_started[0] == 1, "split_tuple: the predecessor is started exactly once");
+    verif_assert(r1.chan == l.chan && r2.chan == l.chan, "split_tuple: every element sender sees the predecessor's channel");
+    if (l.chan == ch_value) verif_assert(r1.value == l.v && r2.value == l.w, "split_tuple: element i goes to sender i, unchanged");
+    if (l.chan == ch_error) verif_assert(r1.err == l.v && r2.err == l.v, "split_tuple: error forwarded to every element sender");
     verif_cover(0);
 }
